@@ -156,6 +156,30 @@ CHECKS = {
         note=COMMON_NOTE + ' The scripted world (harness/world.py) stands in for kernel TCP, select, the clock, the user queue and '
              'thread start: one script operation per loop iteration; it can deliver every segmentation and arrival order but not '
              'preemption inside an iteration (there is one provider thread per association). Reset-while-sending (EPIPE) is not in the alphabet.' + ' Partial: thread join and real select() timing are outside the world.'),
+    'C16': dict(
+        text=('Theorems C16_end_to_end, C16_user_stops (Coq, no axioms): for EVERY list of matches (any length, any mix of '
+              'the two pending codes, any non-empty data sets) the user side fed with what the provider sends yields '
+              'exactly those data sets with those statuses in order, then one final response, then stops; for any response '
+              'list the user side stops at the first non-pending response. Tie: real qr_find_scp / modality_work_list_scp '
+              'output passed through the real encoder + decoder into the real qr_find_scu / modality_work_list_scu.'),
+        technique='Coq proof by induction over the result list + end-to-end correspondence through the real encode/decode path',
+        design_ref='DESIGN.md section 6, C16', note=COMMON_NOTE + ' The service callables run on a real Association object whose provider is a stub (harness/svc_driver.py); handlers, sub-associations and the incoming message queue are scripted.'),
+    'C17': dict(
+        text=('Theorems C17_echo, C17_store, C17_find, C17_n_action, C17_n_event_report, C17_get_user_store_response (Coq, '
+              'no axioms): for EVERY request (all message ids, UIDs, context ids) and every handler outcome the provider '
+              'models answer on the request\'s context with its message id, SOP class (and instance), the matching response '
+              'type and the handler\'s status or the documented failure status. Tie: every provider callable of sopclass.py '
+              'on scripted requests: model responses = decoded transmitted responses, plus the correlation oracle.'),
+        technique='Coq proof (per-provider lemmas over all requests/outcomes) + correspondence on decoded transmitted responses',
+        design_ref='DESIGN.md section 6, C17', note=COMMON_NOTE + ' The service callables run on a real Association object whose provider is a stub (harness/svc_driver.py); handlers, sub-associations and the incoming message queue are scripted.'),
+    'C19': dict(
+        text=('Theorems C19_get_user, C19_move_provider, C19_nothing_to_move (Coq, no axioms): for ANY interleaving of '
+              'pending C-GET responses and C-STORE requests ended by a final response every request is answered once, in '
+              'order, and every accepted instance handed over once; for ANY list of sub-operation outcomes the C-MOVE '
+              'provider sends |subs| pending responses, the k-th reporting k performed and total-k remaining, then exactly one '
+              'final response (also for none). Tie: real qr_get_scu and qr_move_scp on scripted plans.'),
+        technique='Coq proof by loop-invariant induction over message / sub-operation lists + correspondence',
+        design_ref='DESIGN.md section 6, C19', note=COMMON_NOTE + ' The service callables run on a real Association object whose provider is a stub (harness/svc_driver.py); handlers, sub-associations and the incoming message queue are scripted.'),
     'C18': dict(
         text=('Proof over the complete behaviour of the code: statuses.Status is tabulated on all 65536 codes x '
               '24 classes from the working tree on every run; Coq checks every cell against the independent spec '
